@@ -254,8 +254,7 @@ class Gen(object):
         ops = []
         while methods:
             ops += self.block(cls, methods, ctl, inforce, 0)
-        return dict(cls=cls, init=init, ctl=ctl, ops=ops,
-                    params={m: [p for p, _ in sg["params"]] for m, sg in self.sigs[cls].items()}), self.shapes
+        return dict(cls=cls, init=init, ctl=ctl, ops=ops), self.shapes
 
 
 # ------------------------------------------------------------------ exhaustive small domain (thorough tier)
@@ -276,7 +275,6 @@ def exhaustive_cases(sigs):
     gen = Gen(None, sigs, None)
     cases = []
     for cls in ("MC", "BMP"):
-        params = {m: [p for p, _ in sg["params"]] for m, sg in sigs[cls].items()}
         for m, sg in sigs[cls].items():
             if m == "application":
                 continue
@@ -306,7 +304,7 @@ def exhaustive_cases(sigs):
                     kw = [[n, val(n)] for n in rest if mode.get(n, "kw") == "kw"]
                     inner = [[n, ROLE_VALUES[n][1]] for n in roles if mode[n] in ("inner", "both")]
                     outer = [[n, ROLE_VALUES[n][2]] for n in roles if mode[n] in ("outer", "both")]
-                    cases.append(dict(cls=cls, init=[], ctl=EXH_CTL[cls], params=params,
+                    cases.append(dict(cls=cls, init=[], ctl=EXH_CTL[cls],
                                       ops=[["with", outer, [["with", inner, [["call", m, pos, kw, False]]]]]]))
     return cases
 
@@ -838,7 +836,7 @@ def run(chk, args):
         cases += [b["replay"]["case"] for b in data.get("no_longer_checks", []) if "case" in b.get("replay", {})]
         shapes = []
     else:
-        rounds = 100 if chk.tier == "quick" else 2000
+        rounds = 100 if chk.tier == "quick" else 1200
         gen = Gen(chk.rng, sigs, info)
         cases, shapes = [], []
         for _ in range(rounds):
@@ -861,67 +859,73 @@ def run(chk, args):
     if os.path.exists(corpus):
         cases = json.load(open(corpus)) + cases
     for m, sh in shapes:
-        for s in set(sh):
-            chk.count("shape:" + s)
-    chunks = [cases[i:i + 150] for i in range(0, len(cases), 150)]
-    outs = [o for part in chk.impl_parallel("impl_c18.py", chunks) for o in part]
+        for s_ in set(sh):
+            chk.count("shape:" + s_)
     per_method = {}
-    for c, o in zip(cases, outs):
-        if not isinstance(o, dict):
-            chk.fail_input("hang", "history does not terminate", dict(case=c, observed=o))
-            continue
-        ncalls = 0
-        for e in o["events"]:
-            if e[0] == "call":
-                ncalls += 1
-                per_method[(c["cls"], e[1])] = per_method.get((c["cls"], e[1]), 0) + 1
-                chk.count("call-outcome:" + ("sent" if e[2] else (e[3] or "nothing")))
-            elif e[0] == "stop":
-                chk.count("application-exit:" + ("stop-sent" if e[1] else (e[2] or "nothing")))
-            elif e[0] == "stack" and e[1] == "exit":
-                chk.count("block-exits")
-        chk.count("raised-at-top:" + str(o["raised"]))
-        for e in o["events"]:
-            if e[0] in ("call", "stop"):
-                chk.count("commands-per-call:%s" % min(len(e[2] if e[0] == "call" else e[1]), 6))
-        chk.count("class:" + c["cls"])
-        chk.count("geometry:" + ("known" if c["ctl"]["width"] and c["ctl"]["height"] and c["ctl"]["root"]
-                                 else "unknown") if c["cls"] == "MC" else "bmp-connections:%d" % len(c["ctl"]["bmp"]))
-        chk.note_case(dict(cls=c["cls"], init=c["init"], ctl=c["ctl"], ops=c["ops"]),
-                      (ncalls >= 2 or c["ctl"] is EXH_CTL[c["cls"]]) and any(op[0] in ("with", "app") for op in c["ops"]))
-        why = Oracle(sigs, info, c, o).decide(o)
-        if why:
-            chk.fail_input(why[0], why[1], dict(case=c, observed=o))
+    state = dict(bad=0, histories=0, sampled=False)
+    header = ("From Coq Require Import ZArith List String. Import ListNotations.\n"
+              "Require Import Rig.Model.Base Rig.Generated.GenSignatures Rig.Model.Context.\n"
+              "Open Scope string_scope. Open Scope list_scope. Open Scope Z_scope.\n")
+    # batches bound the memory held at any time (thorough tier: ~30000 histories)
+    for lo in range(0, len(cases), 4000):
+        batch = cases[lo:lo + 4000]
+        chunks = [batch[i:i + 150] for i in range(0, len(batch), 150)]
+        outs = [o for part in chk.impl_parallel("impl_c18.py", chunks) for o in part]
+        for c, o in zip(batch, outs):
+            if not isinstance(o, dict):
+                chk.fail_input("hang", "history does not terminate", dict(case=c, observed=o))
+                continue
+            ncalls = 0
+            for e in o["events"]:
+                if e[0] == "call":
+                    ncalls += 1
+                    per_method[(c["cls"], e[1])] = per_method.get((c["cls"], e[1]), 0) + 1
+                    chk.count("call-outcome:" + ("sent" if e[2] else (e[3] or "nothing")))
+                elif e[0] == "stop":
+                    chk.count("application-exit:" + ("stop-sent" if e[1] else (e[2] or "nothing")))
+                elif e[0] == "stack" and e[1] == "exit":
+                    chk.count("block-exits")
+                if e[0] in ("call", "stop"):
+                    chk.count("commands-per-call:%s" % min(len(e[2] if e[0] == "call" else e[1]), 6))
+            chk.count("raised-at-top:" + str(o["raised"]))
+            chk.count("class:" + c["cls"])
+            chk.count("geometry:" + ("known" if c["ctl"]["width"] and c["ctl"]["height"] and c["ctl"]["root"]
+                                     else "unknown") if c["cls"] == "MC" else "bmp-connections:%d" % len(c["ctl"]["bmp"]))
+            chk.note_case(dict(cls=c["cls"], init=c["init"], ctl=c["ctl"], ops=c["ops"]),
+                          (ncalls >= 2 or c["ctl"] is EXH_CTL[c["cls"]])
+                          and any(op[0] in ("with", "app") for op in c["ops"]))
+            why = Oracle(sigs, info, c, o).decide(o)
+            if why:
+                chk.fail_input(why[0], why[1], dict(case=c, observed=o))
+        if not state["sampled"] and batch:
+            mid = len(batch) // 2
+            chk.sample(dict(case=batch[mid], implementation=outs[mid]))
+            state["sampled"] = True
+        if chk.model_ok:
+            try:
+                idx = [i for i, o in enumerate(outs)
+                       if isinstance(o, dict) and '"seq"' not in json.dumps(batch[i]["ops"])]
+                chk.count("oracle-only-histories(board sequences)", len(outs) - len(idx))
+                vals = chk.coq_eval(header, [coq_case(batch[i]) for i in idx], shard=100, name="cases%d" % lo)
+                for i, v in zip(idx, vals):
+                    chk.traces_validated += 1
+                    state["histories"] += 1
+                    why = compare(batch[i], outs[i], v)
+                    if why:
+                        state["bad"] += 1
+                        if state["bad"] <= 3:
+                            chk.disagree("context history: " + why, dict(case=batch[i], observed=outs[i]))
+            except RuntimeError as e:
+                chk.oblige("correspondence:model-evaluates", False, str(e))
+                chk.model_ok = False
     uncovered = [m for cls in sigs for m in sigs[cls] if per_method.get((cls, m), 0) == 0]
     if not args.replay:
         chk.oblige("every-decorated-method-exercised (min %d calls per method)" % (
             min(per_method.values()) if per_method else 0), not uncovered, "never called: %s" % uncovered)
-    mid = len(cases) // 2
-    if cases:
-        chk.sample(dict(case=dict(cls=cases[mid]["cls"], init=cases[mid]["init"], ctl=cases[mid]["ctl"],
-                                  ops=cases[mid]["ops"]), implementation=outs[mid]))
-    if chk.model_ok:
-        try:
-            header = ("From Coq Require Import ZArith List String. Import ListNotations.\n"
-                      "Require Import Rig.Model.Base Rig.Generated.GenSignatures Rig.Model.Context.\n"
-                      "Open Scope string_scope. Open Scope list_scope. Open Scope Z_scope.\n")
-            idx = [i for i, o in enumerate(outs) if isinstance(o, dict) and '"seq"' not in json.dumps(cases[i]["ops"])]
-            chk.count("oracle-only-histories(board sequences)", len(outs) - len(idx))
-            vals = chk.coq_eval(header, [coq_case(cases[i]) for i in idx], shard=60)
-            bad = 0
-            for i, v in zip(idx, vals):
-                chk.traces_validated += 1
-                why = compare(cases[i], outs[i], v)
-                if why:
-                    bad += 1
-                    if bad <= 3:
-                        chk.disagree("context history: " + why, dict(case=cases[i], observed=outs[i]))
-            if not bad:
-                chk.oblige("correspondence:histories (%d histories, %d calls: destination, connection, command, "
-                           "application-id words, exception class, final stack)"
-                           % (len(idx), sum(per_method.values())), True)
-        except RuntimeError as e:
-            chk.oblige("correspondence:model-evaluates", False, str(e))
+    if chk.model_ok and not state["bad"]:
+        chk.oblige("correspondence:histories (%d histories, %d calls: every command's connection, destination, "
+                   "command, sub-command, application-id words; exception class; final stack)"
+                   % (state["histories"], sum(per_method.values())), True)
     chk.coverage["rule"] = (
         "random histories over MachineController (discovered connections on random SpiNN-5 geometries, or none) "
         "and BMPController (random (c,f)/(c,f,b) connection sets): nested with-blocks setting subsets of the "
